@@ -381,7 +381,7 @@ struct Runner {
         }
         else if (v == "crt.recip") {
             Poly X = P(0); size_t k = (size_t)N(1);
-            const Poly1CRT<Field> C(F, X, Indeter("X"));
+            Poly1CRT<Field> C0(F, X, Indeter("X")); const Poly1CRT<Field>& C = C0;   // the const accessors compute the reciprocals on demand
             o << sp(C.reciprocal(k)) << " " << C.size() << " " << se(C.ith(k)) << " " << sp(C.Primes()) << " " << C.Reciprocals().size();
         }
         // ---- the protected range helpers, driven on sub-ranges of padded containers (struct Open)
